@@ -19,7 +19,7 @@ Import ListNotations.
 From BB Require Import BN Brute SpaceFacts TrapFacts PercolateFacts AttractorFacts Diagram Invariants Checks Filter
   Strict PetriNet Control Meta FilterFacts PetriNetFacts TrappistFacts DiagramStruct DiagramSem1 DiagramCache
   DiagramDepth DiagramComplete Termination ControlFacts MetaFacts Candidates StrictFacts MinExpandFacts CandidatesFacts SymbolicTest SymbolicTestFacts Signed ReductionFacts ControlFacts2 Main Blocks BlocksFacts ObsFacts OwnerFacts CandidatesTerm
-  PartialOwner BlockMath BlockComplete ASeeds ASeedsFacts LogChecks SkipRule SkipRuleFacts Names NamesFacts Perm PermFacts SCC SCCFacts SCCStruct ControlFacts3.
+  PartialOwner BlockMath BlockComplete ASeeds ASeedsFacts LogChecks SkipRule SkipRuleFacts Names NamesFacts Perm PermFacts SCC SCCFacts SCCStruct ControlFacts3 SCCTerm FilterSym.
 
 (* given covering candidates, the filter returns exactly one seed per attractor of the node, and the sets are the attractors *)
 Theorem C01_filter_exact : forall (N : net) (S : space) (motifs : list space) (cands seeds : list state) (sets : list (list state)), trap_space N S -> (forall M : space, In M motifs -> trap_space N M /\ subspace M S = true) -> NoDup cands -> (forall c : state, In c cands -> in_space c S = true) -> covers N S motifs cands -> compute_attractors_filter N false motifs cands = (seeds, Some sets) -> one_to_one N S motifs seeds /\ length sets = length seeds /\ (forall (i : nat) (s : state) (X : list state), nth_error seeds i = Some s -> nth_error sets i = Some X -> forall t : state, In t X <-> reach N s t).
@@ -133,6 +133,10 @@ Proof. exact D15_refuted. Qed.
 Theorem C01_scc_witness_facts : snd d15_run = RBool true /\ size d15_diagram = 7 /\ map n_space (sd_nodes d15_diagram) = [[None; None; None; None; None; None]; [Some false; Some true; None; None; Some true; None]; [None; None; None; None; None; Some true]; [Some false; Some true; Some false; Some true; Some true; None]; [Some false; Some true; Some false; Some true; Some true; Some false]; [Some false; Some true; Some false; Some true; Some true; Some true]; [Some false; Some true; None; None; Some true; Some true]] /\ existsb (fun L : list state => owns_b d15_net d15_diagram 1 L && owns_b d15_net d15_diagram 6 L) (attractors_b d15_net) = true.
 Proof. exact d15_facts. Qed.
 
+(* the exactness of the filter holds with the real reachability procedure, for every heuristic tape *)
+Theorem C01_filter_with_symbolic_test_exact : forall (fuel : nat) (N : net) (S : space) (motifs : list space) (cands : list state) (tapes : sym_tape) (seeds : list state) (sets : list (list state)), trap_space N S -> (forall M : space, In M motifs -> trap_space N M /\ subspace M S = true) -> NoDup cands -> (forall c : state, In c cands -> in_space c S = true) -> covers N S motifs cands -> compute_attractors_sym fuel N S false motifs cands tapes = Some (seeds, Some sets) -> one_to_one N S motifs seeds /\ length sets = length seeds /\ (forall (i : nat) (s : state) (X : list state), nth_error seeds i = Some s -> nth_error sets i = Some X -> forall t : state, In t X <-> reach N s t).
+Proof. exact compute_attractors_sym_exact. Qed.
+
 (* non-vacuity: two bistable switches; x0'=x1, x1'=x0, x2'=x3, x3'=x2 *)
 Definition ex_sw : net := [fun s => nth 1 s false; fun s => nth 0 s false; fun s => nth 3 s false; fun s => nth 2 s false].
 Definition ex_cfg : config := {| max_motifs := 1000 |}.
@@ -182,3 +186,4 @@ Print Assumptions C01_aseeds_expansion_one_to_one.
 Print Assumptions C01_nfvs_log_check_exact.
 Print Assumptions C01_scc_strategy_refuted.
 Print Assumptions C01_scc_witness_facts.
+Print Assumptions C01_filter_with_symbolic_test_exact.
